@@ -48,7 +48,8 @@ class Raises:
 
 class Loop:
     def __init__(self, invariant, modifies, index="_i", decreases=None,
-                 body_post=None):
+                 body_post=None, entry=None):
+        self.entry = entry or {}           # ghost locals: name -> expression evaluated at loop entry
         self.body_post = body_post or {}   # clauses over `pre.<local>` and the locals
         self.invariant = invariant if isinstance(invariant, dict) else \
             {str(i): e for i, e in enumerate(invariant)}
@@ -58,9 +59,15 @@ class Loop:
 
     # -------------------------------------------------------------------
     def _check_inv(self, ex, contract, frame, tag, no):
+        short = contract.short
+        ts = getattr(ex, "target_short", None)
+        if ts and contract.qualname != ex.target:
+            short = f"{ts}/{short}"        # the loop of an inlined / nested function
+        elif ts:
+            short = ts
         for k, e in self.invariant.items():
             t = contract.eval_clause(ex, e, frame.env)
-            ex.check(f"{contract.short}.loop{no}.{tag}[{k}]", t, e)
+            ex.check(f"{short}.loop{no}.{tag}[{k}]", t, e)
 
     def _assume_inv(self, ex, contract, frame):
         for k, e in self.invariant.items():
@@ -82,8 +89,21 @@ class Loop:
                 frame.env.set(name, fresh(ex, schema, name) if schema is not None
                               else fresh_like(ex, cur, name))
 
+    def _ghost_entry(self, ex, c, frame):
+        for name, expr in self.entry.items():
+            specfunc = Func(ast.FunctionDef(name="<ghost>", args=_NOARGS, body=[], decorator_list=[],
+                                            lineno=0, col_offset=0),
+                            None, c.qualname + ".<ghost>", c.spec_module, None, True)
+            saved = ex.opt.get("spec_mode")
+            ex.opt["spec_mode"] = True
+            try:
+                frame.env.set(name, ex.eval(_parse_expr(expr), Frame(specfunc, frame.env)))
+            finally:
+                ex.opt["spec_mode"] = saved
+
     def run_while(self, ex, node, frame, no):
         c = ex.registry[frame.func.qualname]
+        self._ghost_entry(ex, c, frame)
         self._check_inv(ex, c, frame, "inv_entry", no)
         which = ex.choose(2, f"loop {no}: arbitrary iteration / exit")
         self._havoc(ex, frame)
